@@ -8,6 +8,7 @@ import (
 	"context"
 	"encoding/json"
 	"fmt"
+	"github.com/ipfs/go-cid"
 	"io"
 	"sort"
 	"sync"
@@ -32,7 +33,7 @@ func init() {
 }
 
 type ConcInput struct {
-	Kind       string `json:"kind"` // dir | file
+	Kind       string `json:"kind"` // dir | file | file-nosizes (interior nodes without BlockSizes, dag-pb leaves)
 	Fanout     int    `json:"fanout,omitempty"`
 	Entries    int    `json:"entries,omitempty"`
 	Width      int    `json:"width,omitempty"`
@@ -67,6 +68,11 @@ func runConcInput(rep *Report, in ConcInput) {
 		l, _, err := builder.BuildUnixFSShardedDirectory(in.Fanout, multihash.MURMUR3X64_64, entryLinks(es), st.LinkSystem())
 		must(err)
 		rootLink = l
+	case "file-nosizes":
+		next := 0
+		var c cid.Cid
+		c, content = buildNoSizesTree(st, 3, 3, &next)
+		rootLink = cidlink.Link{Cid: c}
 	case "file":
 		content = synthContent(9, in.Chunks*3)
 		c, _, err := buildFile(st, in.Width, "size-3", content)
@@ -151,7 +157,7 @@ func runConcInput(rep *Report, in ConcInput) {
 					if len(keys) != len(expected) {
 						errs <- fmt.Sprintf("iteration yielded %d entries, alone it yields %d", len(keys), len(expected))
 					}
-				case in.Kind == "file":
+				case in.Kind == "file" || in.Kind == "file-nosizes":
 					l := node.(lbn)
 					r, err := l.AsLargeBytes()
 					if err != nil {
@@ -211,6 +217,14 @@ func scnConc(rep *Report, rng *Rng, tier string, outdir string) {
 		}
 		ins = append(ins, ConcInput{Kind: "file", Width: 2, Chunks: 70, Goroutines: g, Mix: "readers", Rounds: rounds})
 		ins = append(ins, ConcInput{Kind: "file", Width: 4, Chunks: 200, Goroutines: g, Mix: "readers", Rounds: rounds / 2})
+	}
+	// every other fanout meets its first reader concurrently (process-wide caches keyed by fanout start cold)
+	for i, f := range []int{8, 32, 64, 128, 512, 1024} {
+		ins = append(ins, ConcInput{Kind: "dir", Fanout: f, Entries: 120, Goroutines: 4, Mix: []string{"lookup", "iterate", "length"}[i%3], Warm: false, Rounds: 3})
+	}
+	// files whose interior nodes have no BlockSizes: readers measure the children by opening them
+	for _, g := range []int{2, 8} {
+		ins = append(ins, ConcInput{Kind: "file-nosizes", Goroutines: g, Mix: "readers", Rounds: rounds})
 	}
 	for _, in := range ins {
 		runConcInput(rep, in)
